@@ -519,7 +519,7 @@ fn handle_a2ml(
                     }
                 } else if filebytes[bytepos..].starts_with(b"/end") {
                     done = true;
-                } else {
+                } else if bytepos < datalen {
                     // solitary '/' hanging around? this will definitely be a parse error later on
                     bytepos += 1;
                 }
